@@ -20,10 +20,16 @@ if [ "$ENGINE" = ordersim ]; then
     [ -e "$f" ] || continue
     HIDE="$HIDE,\"$f\":\"\""
   done
-  echo "{\"Replace\":{${REPL:1:${#REPL}-2},\"$REPO/cmd/sysl/zz_verif_driver_test.go\":\"$VERIF/sim/ordersim/driver_test.go.txt\"$HIDE}}" > "$WORK/ov.json"
+  INJ=""
+  for f in "$VERIF"/sim/ordersim/*.go.txt; do
+    b=$(basename "$f" .go.txt)
+    case $b in *_test) t="$REPO/cmd/sysl/zz_verif_$b.go" ;; *) t="$REPO/cmd/sysl/zz_verif_${b}_test.go" ;; esac
+    INJ="$INJ,\"$t\":\"$f\""
+  done
+  echo "{\"Replace\":{${REPL:1:${#REPL}-2}$INJ$HIDE}}" > "$WORK/ov.json"
   { cat "$REPO/go.mod"; echo; echo "require verif/sim v0.0.0"; echo "replace verif/sim => $VERIF/sim"; } > "$WORK/go.mod"
   cp "$REPO/go.sum" "$WORK/go.sum"
-  (cd "$REPO" && $GO test -c $RACE -tags verif -modfile "$WORK/go.mod" -overlay "$WORK/ov.json" -o "$WORK/$ENGINE.test" ./cmd/sysl) >&2 || { echo "HARNESS-ERROR: build of $ENGINE failed" >&2; exit 2; }
+  (cd "$REPO" && $GO test -c -vet=off $RACE -tags verif -modfile "$WORK/go.mod" -overlay "$WORK/ov.json" -o "$WORK/$ENGINE.test" ./cmd/sysl) >&2 || { echo "HARNESS-ERROR: build of $ENGINE failed" >&2; exit 2; }
 else
   echo "{\"Replace\":$REPL}" > "$WORK/ov.json"
   {
@@ -34,6 +40,6 @@ else
     awk '/^require \(/{f=1;print;next} f&&/^\)/{f=0;print;next} f{print}' "$REPO/go.mod"
   } > "$WORK/go.mod"
   cp "$REPO/go.sum" "$WORK/go.sum"
-  (cd "$VERIF/sim" && $GO test -c $RACE -tags verif -modfile "$WORK/go.mod" -overlay "$WORK/ov.json" -o "$WORK/$ENGINE.test" ./engines/$ENGINE) >&2 || { echo "HARNESS-ERROR: build of $ENGINE failed" >&2; exit 2; }
+  (cd "$VERIF/sim" && $GO test -c -vet=off $RACE -tags verif -modfile "$WORK/go.mod" -overlay "$WORK/ov.json" -o "$WORK/$ENGINE.test" ./engines/$ENGINE) >&2 || { echo "HARNESS-ERROR: build of $ENGINE failed" >&2; exit 2; }
 fi
 echo "$WORK/$ENGINE.test"
